@@ -22,7 +22,8 @@ Record oparams := mkOP {
 (* ---------------------------------------------------------------- Tally classification *)
 
 (** isInsideSpread: median - spread <= rate <= median + spread *)
-Definition in_band (m s : Z) (v : pvote) : bool := (m - s <=? pv_rate v) && (pv_rate v <=? m + s).
+(* since commit 66a0ce3 the upper test is rate - spread <= median (same truth value, no overflowing Add) *)
+Definition in_band (m s : Z) (v : pvote) : bool := (m - s <=? pv_rate v) && (pv_rate v - s <=? m).
 Definition inside_b (band : Z) (all : list pvote) (m : Z) (v : pvote) : bool :=
   in_band m (reward_spread band m all) v.
 (** isAbstainVote: rate not positive *)
